@@ -8,3 +8,4 @@ import Theorems.C16
 #print axioms C16.history_refinement
 #print axioms C16.ber_bler_sandwich
 #print axioms C16.bler_reject
+#print axioms C16.symCode_blocks
